@@ -282,9 +282,69 @@ def count_occurrences(g, node):
     return n
 
 
+def deep_transform(rec, depth):
+    """A chain of nested objects `depth` levels deep, out of a parse (every level has its span); the
+    callback replaces the innermost object by a fresh one.  Every ancestor is copied because its child
+    changed: each copy carries the position metadata of the node it stands for, at EVERY depth; the input
+    keeps its own objects and metadata."""
+    r = observe.compile_grammar('start = P\nclass P { inner: "(" >> (P | N) << ")" ; tail: "!"? }\nclass N { d: /[0-9]/ }\nclass M { was: /x/ }\n')
+    if r[0] != 'ok':
+        rec.violation('deep:grammar-error', 'Grammar()', dict(kind='deep-transform'), 'module', r)
+        return
+    g = r[1]
+    text = '(' * depth + '7' + ')' * depth
+    tree = g.parse(text)
+    before = []
+    node = tree
+    while isinstance(node, g.P):
+        before.append((id(node), node._metadata.position_info))
+        node = node.inner
+    calls = []
+
+    def swap(n):
+        calls.append(type(n).__name__)
+        return g.M('seven') if isinstance(n, g.N) else n
+
+    case = dict(kind='deep-transform', depth=depth)
+    rec.case()
+    rec.nontrivial(('deep-transform', depth))
+    try:
+        out = g.transform(tree, swap)
+    except RecursionError as e:
+        rec.count('deep_transform_recursion_errors')
+        rec.note('transform of a %d-deep chain: RecursionError (the statement does not promise depth independence of transform)' % depth)
+        return
+    rec.count('deep_transforms')
+    if len(calls) != depth + 1:
+        rec.violation('deep:callback-count', 'callback log on a deep chain', case, depth + 1, len(calls))
+    a, b, lvl = tree, out, 0
+    while isinstance(a, g.P):
+        if not isinstance(b, g.P) or b is a:
+            rec.violation('deep:not-rebuilt', 'deep chain: every ancestor of a changed node is a new object', dict(case, level=lvl), 'a copy', type(b).__name__)
+            break
+        if b._metadata.position_info != a._metadata.position_info or a._metadata.position_info is None:
+            rec.violation('deep:copy-lost-metadata', 'deep chain: a copy carries the position metadata of the node it stands for',
+                          dict(case, level=lvl), repr(a._metadata.position_info), repr(b._metadata.position_info))
+            break
+        a, b, lvl = a.inner, b.inner, lvl + 1
+    else:
+        if not (isinstance(a, g.N) and isinstance(b, g.M) and b._metadata.position_info == a._metadata.position_info):
+            rec.violation('deep:replacement-metadata', 'deep chain: the replacement carries the metadata of the node it stands for', case,
+                          repr(getattr(a, '_metadata', None) and a._metadata.position_info), repr(getattr(b, '_metadata', None) and b._metadata.position_info))
+    node, i = tree, 0
+    while isinstance(node, g.P):
+        if (id(node), node._metadata.position_info) != before[i]:
+            rec.violation('deep:input-modified', 'deep chain: the input is untouched', dict(case, level=i), 'unchanged', 'changed')
+            break
+        node, i = node.inner, i + 1
+
+
 def run_shard(rec):
     quick = rec.tier == 'quick'
     rec.deadline = time.time() + (300 if quick else 600)
+    if rec.shard == 4:
+        for depth in (50, 199, 201, 260, 420):
+            deep_transform(rec, depth)
     g = forest.load_module()
     rng = rec.rng
     fams = callback_families(g, rng)
@@ -311,6 +371,8 @@ def run_shard(rec):
 
 
 def replay(rec, rep):
+    if rep['case'].get('kind') == 'deep-transform':
+        return deep_transform(rec, rep['case'].get('depth', 260))
     import random
     case = rep['case']
     rec.seed = case.get('seed', rec.seed)
